@@ -1133,7 +1133,7 @@ fn judge_duel(case: &DuelCase, ctx: &mut CaseCtx, w: &World, plan: &[Planned], a
                                     let first = first_label(&q.name);
                                     let escaped_label = q.name.0.len() > 2 && (first.contains('.') || first.contains('\\'));
                                     ctx.violation(
-                                        if escaped_label { "C08/escaped-instance-label/conflict-not-detected" } else { "C08/lost-comparison-no-wait" },
+                                        if escaped_label { "C08/escaped-instance-label/conflict-not-detected".to_string() } else { sig("C08/lost-comparison-no-wait") },
                                         format!(
                                             "D{i} lost the simultaneous-probe comparison for {} at +{} ms (its data sorts earlier) but probes again at +{} ms, before one second has passed\n{}",
                                             nm.to_escaped(),
